@@ -336,10 +336,18 @@ def _check_cond(ctx, run, model, train_df, op, recognised):
                         ctx.violate('b_conditional_covariance_symmetric', SUBJECT,
                                     'max asymmetry %.3g' % float(np.max(np.abs(cov - cov.T))),
                                     **cond)
+                    # positive semi-definite up to the numerical noise accepted everywhere
+                    # else in this oracle (1e-6): numpy's own warning uses 1e-8, which a Schur
+                    # complement over an ill-conditioned S22 (two nearly dependent conditioning
+                    # columns) misses by rounding alone
+                    lam_min = float(np.linalg.eigvalsh((cov + cov.T) / 2.0).min())
                     if rec.psd_warnings:
+                        ctx.probes['numpy_psd_warning'] += 1
+                    if lam_min < -1e-6:
                         ctx.violate('b_conditional_covariance_psd', SUBJECT,
-                                    'numpy reported a covariance that is not positive-'
-                                    'semidefinite', pattern=run['table'].get('pattern'), **cond)
+                                    'smallest eigenvalue of the covariance passed to the draw '
+                                    'is %.3g' % lam_min,
+                                    pattern=run['table'].get('pattern'), **cond)
                     # duplicated free columns make the permutation ambiguous: the output
                     # must be the transform of the draw under at least one admissible one
                     first = None
